@@ -128,9 +128,9 @@ func (c ConditionFunction) Evaluate(a interface{}, b interface{}) (bool, error) 
 	case ConditionExcludes:
 		switch x.Kind() {
 		case reflect.Slice:
-			return !sliceContains(x, y), nil
+			return sliceExcludes(x, y), nil
 		case reflect.Map:
-			return !mapContains(x, y), nil
+			return mapExcludes(x, y), nil
 		case reflect.Int, reflect.Float64, reflect.Bool, reflect.String:
 			return !reflect.DeepEqual(a, b), nil
 		default:
@@ -208,6 +208,16 @@ func sliceContains(x, y reflect.Value) bool {
 	return true
 }
 
+// sliceExcludes returns true if x contains none of the elements of y
+func sliceExcludes(x, y reflect.Value) bool {
+	for i := 0; i < y.Len(); i++ {
+		if sliceContains(x, y.Slice(i, i+1)) {
+			return false
+		}
+	}
+	return true
+}
+
 func mapContains(x, y reflect.Value) bool {
 	iter := y.MapRange()
 	for iter.Next() {
@@ -225,6 +235,19 @@ func mapContains(x, y reflect.Value) bool {
 			if v.Elem() != vx.Elem() {
 				return false
 			}
+		}
+	}
+	return true
+}
+
+// mapExcludes returns true if x contains none of the key-value pairs of y
+func mapExcludes(x, y reflect.Value) bool {
+	iter := y.MapRange()
+	for iter.Next() {
+		pair := reflect.MakeMap(y.Type())
+		pair.SetMapIndex(iter.Key(), iter.Value())
+		if mapContains(x, pair) {
+			return false
 		}
 	}
 	return true
